@@ -9,6 +9,8 @@
 #include <exception>
 #include <fstream>
 #include <iostream>
+#include <thread>
+#include <vector>
 #include <unistd.h>
 
 #include "vh_common.h"
@@ -21,7 +23,89 @@ static void onTerminate() {
   _exit(97);
 }
 
+static std::string runCase(const std::string &line) {
+  json ev;
+  try {
+    const json c = json::parse(line);
+    ev = c;
+    const std::string op = c.at("op").get<std::string>();
+    auto it = registry().find(op);
+    if (it == registry().end()) {
+      ev["harness_error"] = "unknown op";
+    } else {
+      bigFlag() = false;
+      try {
+        it->second(c, ev);
+      } catch (const std::exception &e) {
+        ev["harness_error"] = std::string("handler: ") + e.what();
+      }
+      ev["big"] = bigFlag() ? 1 : 0;
+    }
+  } catch (const std::exception &e) {
+    ev = json::object();
+    ev["op"] = "HarnessError";
+    ev["harness_error"] = std::string("parse: ") + e.what();
+  }
+  return ev.dump();
+}
+
+// vh --threads N <cases> <outprefix>:  C18.  Pass 1 (main thread) runs every
+// case once, building the shared const operand objects (-> <outprefix>.seq).
+// Pass 2: N threads run ALL cases at the same time on those shared objects,
+// each from a different starting point (-> <outprefix>.t<k>).  After the join
+// the use_count of every shared grid block is compared with the number of
+// cached objects that refer to it (-> <outprefix>.quiescent).
+static int threadedMain(int nthreads, const char *casesPath, const std::string &prefix) {
+  std::ifstream in(casesPath);
+  if (!in) return 2;
+  std::vector<std::string> cases;
+  for (std::string l; std::getline(in, l);)
+    if (!l.empty()) cases.push_back(l);
+  auto dump = [](const std::string &path, const std::vector<std::string> &lines) {
+    FILE *f = std::fopen(path.c_str(), "w");
+    for (const auto &s : lines) {
+      std::fwrite(s.data(), 1, s.size(), f);
+      std::fputc('\n', f);
+    }
+    std::fclose(f);
+  };
+  opCache().mode = 1;
+  std::vector<std::string> seq;
+  for (const auto &c : cases) seq.push_back(runCase(c));
+  dump(prefix + ".seq", seq);
+  opCache().mode = 2;
+  // handles held by the shared objects themselves (operands, operators, forms)
+  // before any thread runs: the count every block must return to after the join
+  std::vector<long> baseline;
+  for (auto &audit : opCache().gridAudits) baseline.push_back(audit().first);
+  std::vector<std::vector<std::string>> outs(nthreads, std::vector<std::string>(cases.size()));
+  std::vector<std::thread> ths;
+  for (int t = 0; t < nthreads; t++) {
+    ths.emplace_back([&, t] {
+      const size_t n = cases.size(), start = n * t / nthreads;
+      for (size_t k = 0; k < n; k++) {
+        const size_t i = (start + k) % n;
+        outs[t][i] = runCase(cases[i]);
+        if ((k & 7) == static_cast<size_t>(t & 7)) std::this_thread::yield();
+      }
+    });
+  }
+  for (auto &th : ths) th.join();
+  for (int t = 0; t < nthreads; t++) dump(prefix + ".t" + std::to_string(t), outs[t]);
+  json q = json::array();
+  for (size_t i = 0; i < opCache().gridAudits.size(); i++) {
+    const auto p = opCache().gridAudits[i]();
+    q.push_back(json::array({p.first, baseline[i]}));
+  }
+  dump(prefix + ".quiescent", {q.dump()});
+  return 0;
+}
+
 int main(int argc, char **argv) {
+  if (argc >= 5 && std::string(argv[1]) == "--threads") {
+    std::set_terminate(onTerminate);
+    return threadedMain(std::atoi(argv[2]), argv[3], argv[4]);
+  }
   if (argc < 3) {
     std::fprintf(stderr, "usage: vh cases.ndjson trace.ndjson [skip]\n");
     return 2;
@@ -40,29 +124,7 @@ int main(int argc, char **argv) {
   while (std::getline(in, line)) {
     if (n++ < skip) continue;
     if (line.empty()) continue;
-    json ev;
-    try {
-      const json c = json::parse(line);
-      ev = c;  // echo the case; handlers overwrite operands with projections
-      const std::string op = c.at("op").get<std::string>();
-      auto it = registry().find(op);
-      if (it == registry().end()) {
-        ev["harness_error"] = "unknown op";
-      } else {
-        bigFlag() = false;
-        try {
-          it->second(c, ev);
-        } catch (const std::exception &e) {
-          ev["harness_error"] = std::string("handler: ") + e.what();
-        }
-        ev["big"] = bigFlag() ? 1 : 0;
-      }
-    } catch (const std::exception &e) {
-      ev = json::object();
-      ev["op"] = "HarnessError";
-      ev["harness_error"] = std::string("parse: ") + e.what();
-    }
-    const std::string s = ev.dump();
+    const std::string s = runCase(line);
     std::fwrite(s.data(), 1, s.size(), out);
     std::fputc('\n', out);
     std::fflush(out);
